@@ -24,7 +24,7 @@ var (
 	c02Names  = []string{"/web", "/web-1", "/web-10", "/db", "/db.primary", "", "/w", "/cache_1", "/Web"}
 	c02Images = []string{"nginx", "nginx:1.25", "postgres", "redis", "ngin"}
 	c02States = []string{"running", "exited", "paused"}
-	c02Keys   = []string{"env", "com.docker.compose.service", "app-name", "a/b", "tier", "org.label-schema.name", "Env", "x y", "größe", "t٣"}
+	c02Keys   = []string{"env", "com.docker.compose.service", "app-name", "a/b", "tier", "org.label-schema.name", "Env", "x y", "größe", "t٣", "container.id", "container-name", "container_state"}
 	c02Vals   = []string{"prod", "production", "pro", "", "dev", "a.b", "a|b", "x y", "(1)", "PROD", " prod", "prod ", " ", "dev\t"}
 )
 
@@ -175,8 +175,10 @@ func genSelector(r *vk.RNG, inv []CSpec) []selMatcher {
 
 func expectedSelection(inv []CSpec, ms []selMatcher) (ids []string, ok bool) {
 	for _, c := range inv {
-		m, good := expectedContainerLabels(c)
-		if !good {
+		// a Docker label whose sanitised name is a built-in container label is what that name reads
+		// (C20); only two Docker keys of one container colliding with each other is left open
+		m, keyClash, _ := expectedContainerLabels3(c)
+		if keyClash {
 			return nil, false
 		}
 		match := true
@@ -415,7 +417,7 @@ func runC02(r *vk.Run) {
 			m.Label = sk
 		}
 		for _, cs := range inv {
-			if _, ok := expectedContainerLabels(cs); !ok {
+			if _, keyClash, _ := expectedContainerLabels3(cs); keyClash {
 				c.Count("excluded_collision", 1)
 				return
 			}
